@@ -94,11 +94,11 @@ def extraction():
 
 
 def extract_deps():
-    """.vo targets that Extract.v requires (read from its From/Require lines)."""
+    """.vo targets that Extract.v requires (read from its `From X Require Import M.` lines)."""
     import re
     deps = []
     text = open(os.path.join(paths.COQ, 'extract', 'Extract.v')).read()
-    for m in re.finditer(r'From (CG|CGgen) Require Import ([^.]*(?:\.[A-Za-z][^.]*)*)\.\s', text):
+    for m in re.finditer(r'^From (CG|CGgen) Require Import ([A-Za-z0-9_. ]+)\.\s*$', text, re.M):
         root, mods = m.group(1), m.group(2).split()
         for mod in mods:
             base = 'theories/' if root == 'CG' else 'gen/'
